@@ -128,6 +128,22 @@ other = new Pallet at (Range(4, 8), Range(-3, 3), 0), with allowCollisions True
 require other.load > ego.load - 150
 """
 
+# geometry work triggered *while the scene is being sampled* (outside the window in which the
+# random state is saved and restored around requirement checking): a non-convex shape whose
+# bounding-box centre lies outside the mesh needs a search for an interior point the first time
+# `intersects` is asked; that search must not draw from the user-visible generators, and its
+# cached result must not make later scenes differ from the first one
+PROGRAMS["nonconvex-shape-query"] = """
+import trimesh
+workspace = Workspace(BoxRegion(dimensions=(30, 30, 30)))
+ringShape = MeshShape(trimesh.creation.annulus(r_min=0.6, r_max=1.0, height=0.5))
+ring = new Object at (Range(-0.01, 0.01), 0, 0), with shape ringShape
+peg = new Object at (0, 0, 0), with width 0.2, with length 0.2, with height 0.2
+ego = new Object in workspace, with pegTouchesRing (ring intersects peg)
+other = new Object in workspace
+param x = Range(0, 1)
+"""
+
 SEEDS = (1, 2)
 
 
@@ -322,6 +338,21 @@ def check_program(item):
             out["violations"].append(
                 ("set-order-dependence:property-name-sets", f"program {name}, seed {seed}: {len(res)} distinct results over {n} assignments of iteration orders to the sets of property names used in specifier resolution (the order of a set of strings depends on PYTHONHASHSEED); e.g. {first_diff(ref, d)}", {"name": name, "seed": seed, "kind": "wideset", "choices": choices})
             )
+        # (1c) the same scenario object asked twice with the same seeds (and the default clock):
+        # state carried from one generate() call to the next must not change the result
+        sc2 = scenic.scenarioFromString(text)
+        again = [one_run(sc2, seed, 0, name) for _ in range(3)]
+        out["runs"] += 3
+        for j, d in enumerate(again):
+            if digest(d) != refd:
+                out["violations"].append(
+                    ("history-dependence:same-scenario-rerun", f"program {name}, seed {seed}: call #{j + 1} of generate() on one scenario object (same seeds each time) differs from the first call on a fresh scenario: {first_diff(ref, d)}", {"name": name, "seed": seed, "kind": "rerun"})
+                )
+                break
+        if any(v[0].startswith("history-dependence:same-scenario-rerun") for v in out["violations"]):
+            # the explorations below replay prefixes on one scenario object and would only
+            # report the same defect as a replay divergence
+            continue
         # (2) requirement-check orderings x history
         for history in range(0, 4 if tier == "thorough" else 3):
             sc = scenic.scenarioFromString(text)
@@ -427,9 +458,18 @@ def replay(ctx, case):
         return
     text = PROGRAMS[name]
     ref = one_run(scenic.scenarioFromString(text), seed, 0, name)
-    ex = explorer.Execution(case["choices"])
+    ex = explorer.Execution(case.get("choices", []))
     with explorer.running(ex):
-        if case["kind"] == "wideset":
+        if case["kind"] == "rerun":
+            sc2 = scenic.scenarioFromString(text)
+            d = ref
+            for _ in range(3):
+                d2 = one_run(sc2, seed, 0, name)
+                if digest(d2) != digest(ref):
+                    d = d2
+                    break
+            sig = "history-dependence:same-scenario-rerun"
+        elif case["kind"] == "wideset":
             d = compile_with_set_order(text, lambda n: explorer.choose(n, tag="setorder"), wide=True, run=lambda sc: one_run(sc, seed, 0, name))
             sig = "set-order-dependence:property-name-sets"
         elif case["kind"] == "set":
